@@ -236,10 +236,16 @@ def run_history(root_name, hist):
             base[(n, s.i, 'ires')] = probe_dump(c, 'tok%d' % s.i)
     nprobes = 0
     applied = []      # (slot, kind, [(cls, attr, key)])
+    last = None
     for step, (op, ti, variant) in enumerate(hist):
         s = slots[step]
         X = lattice[ti % len(lattice)]
         regs = []
+        if op == 'again':
+            # the same (key, function) pair as the previous registration, now on X: a write like any other (X gets its own table)
+            if last is None:
+                continue
+            op, s = last
         try:
             if op == 'defsub':
                 D = type('D%d' % step, (X,), {})
@@ -327,6 +333,8 @@ def run_history(root_name, hist):
             problems.append('step %d (%s on %s) raised %s: %s' % (step, op, X.__name__, type(e).__name__, str(e)[:100]))
             break
         applied.append((s, op, regs))
+        if op in ('cons', 'mcons', 'rep', 'mrep'):
+            last = (op, s)
         for d in compare(model, watched)[:6]:
             problems.append('after step %d (%s on %s): %s' % (step, op, X.__name__, d))
         # behavioural probes for every operation applied so far
@@ -452,7 +460,7 @@ def roots():
 
 def all_ops(is_loader, yobj_ok=True):
     ops = []
-    for op in (LOADER_OPS if is_loader else DUMPER_OPS):
+    for op in (LOADER_OPS if is_loader else DUMPER_OPS) + ['again']:
         if op in ('yobj', 'yobj_sub') and not yobj_ok:
             continue
         for t in range(NCLS):
@@ -501,6 +509,20 @@ def run(spec, ctx):
                             ctx.sample({'root': root, 'history': hist})
                         report(ctx, root, hist, forked(root, hist))
                     k += 1
+            # register on a class, re-register the identical pair on another class, register something else on the first:
+            # the second step must have given its class a table of its own
+            simple = ['cons', 'mcons'] if is_loader else ['rep', 'mrep']
+            for k1 in simple:
+                for k2 in simple:
+                    for tb in range(NCLS):
+                        for ts in range(NCLS):
+                            if ts != tb:
+                                if k % spec['of'] == spec['shard']:
+                                    hist = [[k1, tb, 0], ['again', ts, 0], [k2, tb, 0]]
+                                    ctx.crumb({'root': root, 'history': hist})
+                                    ctx.case(core.h64(root, repr(hist)), True, ['root:' + root, 'again'])
+                                    report(ctx, root, hist, forked(root, hist))
+                                k += 1
         ctx.stat('exhaustive_shards_done')
     else:
         r = random.Random(core.h64('C10', spec['seed'], spec['shard']))
